@@ -288,6 +288,17 @@ func (s *StressRelief) UpdateFromConfig() {
 
 	s.activateLevel = cfg.ActivationLevel
 	s.deactivateLevel = cfg.DeactivationLevel
+	if s.deactivateLevel > s.activateLevel {
+		// The hysteresis in Recalc needs DeactivationLevel <= ActivationLevel (as the
+		// documentation requires); config validation does not enforce it. With the
+		// levels the other way round, a stress level between them would switch
+		// stress relief on and off again within a single Recalc.
+		s.Logger.Error().
+			WithField("activation_level", s.activateLevel).
+			WithField("deactivation_level", s.deactivateLevel).
+			Logf("StressRelief DeactivationLevel is above ActivationLevel; using ActivationLevel for both")
+		s.deactivateLevel = s.activateLevel
+	}
 	s.sampleRate = cfg.SamplingRate
 	if s.sampleRate == 0 {
 		s.sampleRate = 1
